@@ -33,7 +33,8 @@ RowOK(e) ==
 ValOK(e) ==
   LET al == AllowedOf(ConfigViolations(e.kind, e.k, e.r, e.sb)) IN
   /\ e.validate \in al
-  /\ \A f \in {"new_enc", "new_dec", "rs_enc", "rs_dec"} : Has(e, f) => e[f] \in al
+  /\ \A f \in {"validate_enc", "validate_dec", "new_enc", "new_dec", "rate_enc", "rate_dec", "rs_enc", "rs_dec"} :
+        Has(e, f) => e[f] \in al
 
 EventOK(e) == CASE e.ev = "row" -> RowOK(e) [] e.ev = "val" -> ValOK(e) [] OTHER -> FALSE
 TraceInv == ph = 1 => \A e \in {Rec[l]} : EventOK(e)
